@@ -97,6 +97,9 @@ type Ast struct {
 
 	// region
 	Region string
+
+	// if-ok ({% if CtxVar, CtxOK := vok(CtxSrc).(static); [!]CtxOK %}): Then / Else / HasElse as for if
+	Neg bool
 }
 
 func (a AArg) String() string {
@@ -191,6 +194,20 @@ func (a *Ast) Print() string {
 		return "{%" + a.Letters + "= " + a.Cond.String() + " ? " + a.Then[0].Path + " : " + a.Else[0].Path + " %}"
 	case "if":
 		s := "{% if " + a.Cond.String() + " %}" + printNodes(a.Then)
+		if a.HasElse {
+			s += "{% else %}" + printNodes(a.Else)
+		}
+		return s + "{% endif %}"
+	case "ifok":
+		arg := a.CtxSrc
+		if a.CtxLit {
+			arg = a.CtxQuote + a.CtxSrc + a.CtxQuote
+		}
+		neg := ""
+		if a.Neg {
+			neg = "!"
+		}
+		s := fmt.Sprintf("{%% if %s, %s := vok(%s).(static); %s%s %%}", a.CtxVar, a.CtxOK, arg, neg, a.CtxOK) + printNodes(a.Then)
 		if a.HasElse {
 			s += "{% else %}" + printNodes(a.Else)
 		}
